@@ -444,6 +444,20 @@ theorem gen_float_storage : 13 < (alloc Gen.Str.floatAlloc).cap ∧ 24 < Gen.Str
 theorem gen_int_min_literal : myatoi Gen.Str.intMinText = -2147483648 ∧ (∀ c ∈ Gen.Str.intMinText, c ≠ 0) ∧
     Gen.Str.intMinText.length ≤ 11 ∧ Gen.Str.intMinLen = Gen.Str.intMinText.length := gen_intmin
 
+/-- G: `isTrue()`'s literals (`*this != "0"`, first byte none of `N n f F`) as `src/String.cpp` has them now are the ones
+    `Rep.isTrue` transcribes (`truth_flags`); the translator also refuses any change of the one-line bodies of `operator[]`,
+    `operator bool`/`!`/`ok`, `==(char)`, `startsWith/endsWith(char)`, `contains` in `String.h` -/
+theorem gen_istrue_literals : Gen.Str.isTrueNotText = [48] ∧ Gen.Str.isTrueNotFirst = [78, 110, 102, 70] := by decide
+
+/-- G: the blanks of `trim`/`trimmed`/`split()` (`isSpace`, the model of `myisspace` on a signed `char`) are exactly the
+    characters `myisspace` in `include/asl/defs.h` lists now -/
+theorem gen_space_chars (c : UInt8) : isSpace c = true ↔ c ∈ Gen.Str.spaceChars := by
+  rw [isSpace_iff]
+  simp only [Gen.Str.spaceChars, List.mem_cons, List.not_mem_nil, or_false]
+  constructor
+  · rintro (h | h | h | h) <;> simp [h]
+  · rintro (h | h | h | h) <;> simp [h]
+
 /-! ## non-vacuity: the hypotheses are met by concrete non-trivial values -/
 
 example : ∃ r, ofBytes [104, 105] = some r ∧ Models r [104, 105] :=
